@@ -47,6 +47,18 @@ where
     pub fn new(cfg: &RigCfg, ids: Ids, log: Log, behaviour: B) -> Self {
         let world = World::new();
         let t = PuppetTransport { world: world.clone() }.boxed();
+        Self::with_transport(t, world, cfg, ids, log, behaviour)
+    }
+
+    /// A Swarm over any boxed transport (e.g. memory + plaintext + yamux for real pairs).
+    pub fn with_transport(
+        t: libp2p_core::transport::Boxed<(PeerId, libp2p_core::muxing::StreamMuxerBox)>,
+        world: World,
+        cfg: &RigCfg,
+        ids: Ids,
+        log: Log,
+        behaviour: B,
+    ) -> Self {
         let mut c = Config::without_executor()
             .with_dial_concurrency_factor(NonZeroU8::new(cfg.dial_concurrency.max(1)).unwrap())
             .with_idle_connection_timeout(Duration::from_millis(cfg.idle_timeout_ms))
